@@ -6,6 +6,7 @@ import (
 	"encoding/hex"
 	"fmt"
 	"math"
+	"sort"
 	"strings"
 	"sync"
 	"time"
@@ -13,7 +14,9 @@ import (
 	"verif/mc"
 
 	remoteexecution "github.com/bazelbuild/remote-apis/build/bazel/remote/execution/v2"
+	"github.com/buildbarn/bb-remote-execution/pkg/proto/buildqueuestate"
 	"github.com/buildbarn/bb-remote-execution/pkg/proto/remoteworker"
+	"github.com/buildbarn/bb-remote-execution/pkg/scheduler"
 	"google.golang.org/grpc/codes"
 	"google.golang.org/grpc/metadata"
 	"google.golang.org/grpc/status"
@@ -45,11 +48,13 @@ import (
 // Execute call that created it began.
 
 const (
-	csExec     = iota // Execute of a fresh action
-	csSync            // Synchronize of a worker that reports being idle
-	csSyncDone        // Synchronize reporting completion of the task the worker holds
-	csTick            // the fake clock advances by one tick
-	csJoin            // wait until the named thread has finished its script
+	csExec        = iota // Execute of a fresh action
+	csSync               // Synchronize of a worker that reports being idle
+	csSyncDone           // Synchronize reporting completion of the task the worker holds
+	csTick               // the fake clock advances by one tick
+	csJoin               // wait until the named thread has finished its script
+	csAddDrain           // operator: AddDrain of the named drain
+	csRemoveDrain        // operator: RemoveDrain of the named drain
 )
 
 type concStep struct {
@@ -62,6 +67,10 @@ func cSync(worker string) concStep { return concStep{csSync, worker} }
 func cDone(worker string) concStep { return concStep{csSyncDone, worker} }
 func cTick() concStep              { return concStep{csTick, ""} }
 func cJoin(thread string) concStep { return concStep{csJoin, thread} }
+func cDrain(name string) concStep  { return concStep{csAddDrain, name} }
+func cUndrain(name string) concStep {
+	return concStep{csRemoveDrain, name}
+}
 
 type concThread struct {
 	name  string
@@ -77,11 +86,19 @@ type concConfig struct {
 	setup   []concStep
 	threads []concThread
 	bounds  map[string]int
+	// drains: drains the operator steps refer to. A scenario with drains is
+	// judged by the final-state oracle (checkFinal) instead of the
+	// linearizability check, which does not model blocking calls.
+	drains []drainDecl
+	// yield: every release of the scheduler's lock is followed by a
+	// scheduling point (code that reads shared state after dropping it).
+	yield bool
 }
 
 // hOp is one observed call.
 type hOp struct {
-	kind       int // csExec or csSync
+	kind       int // csExec, csSync, csAddDrain or csRemoveDrain
+	d          *drainDecl
 	e          *execDecl
 	w          *workerDecl
 	complete   bool   // Synchronize reports completion of held
@@ -104,6 +121,7 @@ type concSys struct {
 	held    map[string]string // worker name -> hash of the task it holds
 	letters map[string]string // action hash -> "letter#n"
 	done    map[string]chan struct{}
+	active  map[string]bool // drain name -> in force (set when the call returns)
 }
 
 func (c *fakeClock) peek() int {
@@ -116,13 +134,13 @@ func (cc *concConfig) config() *config {
 	return &config{
 		name: cc.name, props: []string{"C04"},
 		predeclared: []pqDecl{{prefix: "", platform: "P1", sizeClasses: []uint32{0}, limits: cc.limits}},
-		workers:     cc.workers, execs: cc.execs,
+		workers:     cc.workers, execs: cc.execs, drains: cc.drains,
 	}
 }
 
 func buildConc(x *mc.X, cc *concConfig) *concSys {
 	s := newSys(x, cc.config(), 0)
-	c := &concSys{s: s, cc: cc, held: map[string]string{}, letters: map[string]string{}, done: map[string]chan struct{}{}}
+	c := &concSys{s: s, cc: cc, held: map[string]string{}, letters: map[string]string{}, done: map[string]chan struct{}{}, active: map[string]bool{}}
 	// Sequential set-up on the controller goroutine (no scheduling points:
 	// hooks return immediately for unmanaged goroutines).
 	c.run(cc.setup)
@@ -133,17 +151,79 @@ func buildConc(x *mc.X, cc *concConfig) *concSys {
 	for i := range cc.threads {
 		th := &cc.threads[i]
 		x.Go(th.name, func() {
-			c.run(th.steps)
+			c.runThread(th)
 			close(c.done[th.name])
 		})
 	}
+	if len(cc.drains) > 0 {
+		// The final-state oracle only looks at the scheduler's state, the
+		// drains in force and the result of every call (not at their
+		// order): states can be merged.
+		x.SetKey(c.key)
+	}
 	x.AddEvent(&mc.Event{Name: "teardown", Teardown: true, Enabled: func() bool { return !s.torn }, Fire: func() {
+		// Nothing is enabled any more: every thread has finished its
+		// script or is durably blocked inside the scheduler, whose lock
+		// is free. This is the final state of the history.
+		if len(cc.drains) > 0 {
+			c.checkFinal(x)
+		}
 		s.mu.Lock()
 		s.torn = true
 		s.mu.Unlock()
 		s.cancel()
 	}})
 	return c
+}
+
+// runThread runs the script of one thread. In the scenarios with a state key a
+// thread carries nothing from one call to the next but its script position
+// (results are recorded in the history, which is part of the key).
+func (c *concSys) runThread(th *concThread) {
+	if len(c.cc.drains) == 0 {
+		c.run(th.steps)
+		return
+	}
+	for i := range th.steps {
+		c.s.x.ResetLocal(fmt.Sprintf("%s@%d", th.name, i))
+		c.run(th.steps[i : i+1])
+	}
+	c.s.x.ResetLocal(th.name + "@end")
+}
+
+// key: scheduler dump, fake clock, drains in force and what every call has
+// returned so far (in order of the calls' beginnings per thread, which is
+// script order; the global order of calls of different threads is not part of
+// it).
+func (c *concSys) key() string {
+	s := c.s
+	s.mu.Lock()
+	defer s.mu.Unlock()
+	var b strings.Builder
+	b.WriteString(s.implKey(scheduler.VerifSeqSnapshot(s.bq)))
+	fmt.Fprintf(&b, "|T%s|torn%v|", s.clock.dump(), s.torn)
+	for _, d := range c.cc.drains {
+		fmt.Fprintf(&b, "%s=%v,", d.name, c.active[d.name])
+	}
+	var ops []string
+	for _, op := range c.hist {
+		o := fmt.Sprintf("k%d", op.kind)
+		switch op.kind {
+		case csExec:
+			o += op.e.name + "#" + c.taskName(op.hash)
+		case csSync:
+			o += op.w.name
+		default:
+			o += op.d.name
+		}
+		if op.done {
+			o += fmt.Sprintf("=%s/%s/%s", op.code, op.stage, c.taskName(op.got))
+		}
+		ops = append(ops, o)
+	}
+	sort.Strings(ops)
+	b.WriteString(strings.Join(ops, ";"))
+	return b.String()
 }
 
 func (c *concSys) run(steps []concStep) {
@@ -169,6 +249,14 @@ func (c *concSys) run(steps []concStep) {
 			c.s.clock.advance(tickUnit)
 		case csJoin:
 			<-c.done[st.arg]
+		case csAddDrain, csRemoveDrain:
+			var d *drainDecl
+			for i := range c.cc.drains {
+				if c.cc.drains[i].name == st.arg {
+					d = &c.cc.drains[i]
+				}
+			}
+			c.doDrain(d, st.kind == csAddDrain)
 		}
 	}
 }
@@ -292,6 +380,142 @@ func (c *concSys) doSync(w *workerDecl, complete bool) {
 	c.endOp(op)
 }
 
+func (c *concSys) doDrain(d *drainDecl, add bool) {
+	s := c.s
+	op := &hOp{kind: csRemoveDrain, d: d}
+	if add {
+		op.kind = csAddDrain
+	}
+	if !c.beginOp(op) {
+		return
+	}
+	req := &buildqueuestate.AddOrRemoveDrainRequest{SizeClassQueueName: scqName(d.prefix, d.platform, d.sc), WorkerIdPattern: d.pattern}
+	var err error
+	if add {
+		_, err = s.bq.AddDrain(s.ctx, req)
+	} else {
+		_, err = s.bq.RemoveDrain(s.ctx, req)
+	}
+	s.mu.Lock()
+	defer s.mu.Unlock()
+	op.code = status.Code(err)
+	if err == nil {
+		c.active[d.name] = add
+	}
+	c.endOp(op)
+}
+
+// checkFinal is the oracle of the scenarios with operator calls. It judges
+// the FINAL state of an interleaving only (transient states - a worker woken
+// by AddDrain that has not yet re-entered the scheduler - are legitimate):
+// "no task stays queued while an undrained worker of its queue is waiting".
+// Every operator and client call has returned by then; a Synchronize call
+// that has not returned is a worker waiting for work.
+func (c *concSys) checkFinal(x *mc.X) {
+	if x.Free() {
+		return
+	}
+	s := c.s
+	s.mu.Lock()
+	defer s.mu.Unlock()
+	var blocked []*hOp
+	for _, op := range c.hist {
+		switch {
+		case op.kind == csSync && !op.done:
+			blocked = append(blocked, op)
+		case !op.done:
+			// A client or operator call that never returned: left to
+			// the engine's deadlock detection.
+			return
+		}
+	}
+	st := scheduler.VerifSeqSnapshot(s.bq)
+	queued := map[scqKey][]string{}
+	for _, pq := range st.PlatformQueues {
+		for _, q := range pq.SizeClassQueues {
+			got := map[string][]string{}
+			s.collectQueued(q.Root, got)
+			var paths []string
+			for p := range got {
+				paths = append(paths, p)
+			}
+			sort.Strings(paths)
+			k := scqKey{pqKey{pq.InstanceNamePrefix, s.platNames[pq.Platform]}, q.SizeClass}
+			for _, p := range paths {
+				for _, h := range got[p] {
+					queued[k] = append(queued[k], c.taskName(h))
+				}
+			}
+		}
+	}
+	var drains []string
+	for _, d := range c.cc.drains {
+		if c.active[d.name] {
+			drains = append(drains, d.name)
+		}
+	}
+	for _, op := range blocked {
+		w := op.w
+		k := scqKey{pqKey{w.prefix, w.platform}, w.sc}
+		drained := false
+		for i := range c.cc.drains {
+			d := &c.cc.drains[i]
+			if c.active[d.name] && (scqKey{pqKey{d.prefix, d.platform}, d.sc}) == k && workerMatches(map[string]string{"host": w.host}, d.pattern) {
+				drained = true
+			}
+		}
+		if drained {
+			continue
+		}
+		if len(queued[k]) > 0 {
+			x.FailP("C04", "conc/work-conservation", "final state: task(s) %v stay queued in %v while worker %s of that queue is blocked in Synchronize waiting for work and no drain matches it (drains in force: %v).\n  observed calls:\n    %s",
+				queued[k], k, w.name, drains, c.renderHistory())
+			return
+		}
+		// A waiting, undrained worker must be one of the workers an
+		// arriving task would be handed to (otherwise every later task
+		// stays queued next to it): the oracle the sequence explorer
+		// applies at every letter boundary.
+		for _, pq := range st.PlatformQueues {
+			for _, q := range pq.SizeClassQueues {
+				if (scqKey{pqKey{pq.InstanceNamePrefix, s.platNames[pq.Platform]}, q.SizeClass}) != k {
+					continue
+				}
+				for _, iw := range q.Workers {
+					if s.hostNames[iw.Key] == w.name && !iw.Parked && !iw.Terminating {
+						x.FailP("C04", "conc/eligible-worker-not-offered", "final state: worker %s is blocked in Synchronize waiting for work, no drain matches it (drains in force: %v), but it is not among the idle synchronizing workers an arriving task would be handed to.\n  observed calls:\n    %s",
+							w.name, drains, c.renderHistory())
+						return
+					}
+				}
+			}
+		}
+	}
+	// Every accepted task is somewhere: queued or handed to a worker.
+	for _, op := range c.hist {
+		if op.kind != csExec || op.code != codes.OK {
+			continue
+		}
+		found := false
+		for _, l := range queued {
+			for _, n := range l {
+				if n == c.taskName(op.hash) {
+					found = true
+				}
+			}
+		}
+		for _, o := range c.hist {
+			if o.kind == csSync && o.got == op.hash {
+				found = true
+			}
+		}
+		if !found {
+			x.FailP("C04", "conc/task-lost", "final state: task %s was accepted but is neither queued nor was it handed to a worker.\n  observed calls:\n    %s", c.taskName(op.hash), c.renderHistory())
+			return
+		}
+	}
+}
+
 // ---------------------------------------------------------------------------
 // Rendering
 
@@ -312,7 +536,16 @@ func (c *concSys) renderOp(op *hOp) string {
 		end, ce = fmt.Sprint(op.end), fmt.Sprint(op.ce)
 	}
 	fmt.Fprintf(&b, "[call@%d return@%s clock %d..%s] ", op.begin, end, op.cb, ce)
-	if op.kind == csExec {
+	if op.kind == csAddDrain || op.kind == csRemoveDrain {
+		name := "AddDrain"
+		if op.kind == csRemoveDrain {
+			name = "RemoveDrain"
+		}
+		fmt.Fprintf(&b, "%s %v", name, op.d.pattern)
+		if op.done {
+			fmt.Fprintf(&b, " -> %s", op.code)
+		}
+	} else if op.kind == csExec {
 		fmt.Fprintf(&b, "Execute %s -> %s %s", c.taskName(op.hash), op.code, op.stage)
 	} else {
 		fmt.Fprintf(&b, "Synchronize %s", op.w.name)
@@ -556,6 +789,11 @@ func (c *concSys) finish(x *mc.X) {
 	if x.Free() {
 		return
 	}
+	if len(c.cc.drains) > 0 {
+		// Judged by checkFinal at the end of the interleaving.
+		x.Outcome("%s", strings.Join(out, ";"))
+		return
+	}
 	v := c.linearizable()
 	if v.unsupported {
 		out = append(out, "unsupported-order")
@@ -638,18 +876,82 @@ func concConfigs() []*concConfig {
 			},
 			bounds: bounds,
 		},
+		{
+			// The wait loop of worker.getNextTask() against operator calls:
+			// W:1 waits for work; the operator adds a drain that matches it
+			// (which wakes it up and takes it out of the idle list) and
+			// removes the drain again, then a task arrives. In every
+			// interleaving - in particular "AddDrain wakes the worker,
+			// RemoveDrain completes, only then the worker re-acquires the
+			// scheduler's lock" - the history must end with the task at the
+			// worker, not queued next to a waiting, undrained worker.
+			name: "c04-conc-undrain", workers: four,
+			execs:  []execDecl{{name: "a", platform: "P1", corr: "A", tool: "T", dur: 1}},
+			drains: []drainDecl{{name: "d:w1", platform: "P1", pattern: map[string]string{"host": "w1"}}},
+			threads: []concThread{
+				{"L", []concStep{cSync("W:1")}},
+				{"M", []concStep{cDrain("d:w1"), cUndrain("d:w1"), cExec("a")}},
+			},
+			bounds: bounds,
+		},
+		{
+			// Operator calls only, with a scheduling point after every
+			// release of the scheduler's lock as well (the wait loop reads
+			// scheduler state right before and after dropping the lock): in
+			// the end the worker must be back among the workers a new task
+			// would be handed to. (No Execute here: a client that gives up
+			// while its task changes stage leaves a Go select with two ready
+			// cases, which the engine cannot replay.)
+			name: "c04-conc-undrain-yield", workers: four, yield: true,
+			drains: []drainDecl{{name: "d:w1", platform: "P1", pattern: map[string]string{"host": "w1"}}},
+			threads: []concThread{
+				{"L", []concStep{cSync("W:1")}},
+				{"M", []concStep{cDrain("d:w1"), cUndrain("d:w1")}},
+			},
+			bounds: bounds,
+		},
+		{
+			// The same with the client as a third thread: the task may
+			// arrive before, between and after the operator's calls, and
+			// while the worker is between wake-up and re-entry.
+			name: "c04-conc-undrain-client", workers: four,
+			execs:  []execDecl{{name: "a", platform: "P1", corr: "A", tool: "T", dur: 1}},
+			drains: []drainDecl{{name: "d:w1", platform: "P1", pattern: map[string]string{"host": "w1"}}},
+			threads: []concThread{
+				{"L", []concStep{cSync("W:1")}},
+				{"M", []concStep{cDrain("d:w1"), cUndrain("d:w1")}},
+				{"K", []concStep{cExec("a")}},
+			},
+			bounds: bounds,
+		},
+		{
+			// Two waiting workers, a drain that matches every worker (both
+			// are woken and must both come back), two tasks. Three threads
+			// with a blocking call each: at most 3 preemptions in the quick
+			// tier.
+			name: "c04-conc-undrain-two", workers: four,
+			execs:  []execDecl{{name: "a", platform: "P1", corr: "A", tool: "T", dur: 1}},
+			drains: []drainDecl{{name: "d:all", platform: "P1", pattern: map[string]string{}}},
+			threads: []concThread{
+				{"L1", []concStep{cSync("W:1")}},
+				{"L2", []concStep{cSync("W:2")}},
+				{"M", []concStep{cDrain("d:all"), cUndrain("d:all"), cExec("a"), cExec("a")}},
+			},
+			bounds: map[string]int{"quick": 3, "thorough": 5},
+		},
 	}
 }
 
 func concScenario(cc *concConfig) *mc.Scenario {
 	var cur *concSys
 	return &mc.Scenario{
-		Name:     cc.name,
-		Props:    []string{"C04"},
-		Liveness: []string{"C04"},
-		Panics:   []string{"C04"},
-		Bounds:   cc.bounds,
-		Build:    func(x *mc.X) { cur = buildConc(x, cc) },
-		Finish:   func(x *mc.X) { cur.finish(x) },
+		Name:             cc.name,
+		Props:            []string{"C04"},
+		Liveness:         []string{"C04"},
+		Panics:           []string{"C04"},
+		Bounds:           cc.bounds,
+		YieldAfterUnlock: cc.yield,
+		Build:            func(x *mc.X) { cur = buildConc(x, cc) },
+		Finish:           func(x *mc.X) { cur.finish(x) },
 	}
 }
